@@ -31,6 +31,12 @@ Cuts == {[kind |-> "truncate", at |-> a] : a \in {0, 1, 5, 20, 43, 44, 45, 60, 1
 Versions == {[kind |-> "version", val |-> v, both |-> b] : v \in {0, 1, 49, 50, 51, 52, 255}, b \in BOOLEAN}
 TypeIdx == {[kind |-> "typeidx", val |-> v] : v \in {0, 1, 2, 3, 5, 127, 128, 255}}
 Magic == {[kind |-> "magic", at |-> a] : a \in 0..3} \cup {[kind |-> "empty"]}
+\* the second header's version byte alone (the two headers of a file then disagree about the block layout)
+Versions2 == {[kind |-> "version2", val |-> v] : v \in {0, 1, 49, 50, 51, 52, 255}}
+\* fields of the local time type records of either block: utoff at and beyond the 32-bit and one-day limits
+\* (RFC 8536: -2^31 must not appear), isdst and designation index outside their domains
+TypeRecs == {[kind |-> "utoff", blk |-> b, val |-> v] : b \in {1, 2}, v \in {"min", "minp1", "max", "day", "negday", "daym1", "negdaym1"}}
+            \cup {[kind |-> "typerec", blk |-> b, field |-> f, val |-> v] : b \in {1, 2}, f \in {"isdst", "abbr"}, v \in {2, 127, 255}}
 
 \* ---- footers from a mutated POSIX-TZ grammar -----------------------------------------
 Heads == << <<"A","A","A","-","1","B","B","B">>, <<"A","A","A","1">>, <<"<","+","0","1",">","-","1","<","+","0","2",">">>,
@@ -63,7 +69,7 @@ Footers == {[kind |-> "footer", text |-> FooterText(h, a, b), noend |-> FALSE] :
            \cup {[kind |-> "footer", text |-> Heads[h] \o Comma \o b \o Comma \o a, noend |-> FALSE] :
                    h \in {1}, a \in EveryMonth, b \in {Rules[1], <<"J","6","0">>}}
 
-Structural == Counts \cup Cuts \cup Versions \cup TypeIdx \cup Magic
+Structural == Counts \cup Cuts \cup Versions \cup Versions2 \cup TypeIdx \cup TypeRecs \cup Magic
 
 Cases(z) == {Case(s, m) : s \in {x \in Seeds : InShard(x)}, m \in Structural}
             \cup {Case(s, m) : s \in {0, 2, 4, 5}, m \in {f \in Footers : InShard(Len(f.text))}}
